@@ -526,7 +526,17 @@ def run_property(prop, tier, seed, only, jobs_override):
             log("BUILD FAILED (harness crate does not compile against /repo's current tree):")
             errs = [l for l in out.splitlines() if l.startswith("error")]
             log("\n".join(errs[:20]))
-            if cfg.get("build_failure_is_violation"):
+            # compiling is part of the claim only for the modules named in build_failure_scope (C16 getter shapes,
+            # C20 recursive grammars): an error located elsewhere (e.g. a renamed private function a stub refers to)
+            # is a broken harness, not a violation
+            scope = cfg.get("build_failure_scope", [])
+            ol = out.splitlines()
+            located = []
+            for i, l in enumerate(ol):
+                if l.startswith("error"):
+                    located += [x for x in ol[i + 1:i + 4] if x.strip().startswith("-->")]
+            in_scope = bool(located) and all(any(sc in l for sc in scope) for l in located)
+            if cfg.get("build_failure_is_violation") and in_scope:
                 os.makedirs(os.path.join(OUT, "replays"), exist_ok=True)
                 path = os.path.join(OUT, "replays", "%s-build-failure.log" % prop)
                 open(path, "w").write(out)
